@@ -7,7 +7,12 @@ A *regressor case* is a JSON-able dict:
    "tr": {"inputs": spec, "outputs": spec, "a": spec},      transformer specs (group or variable keys)
    "q": [[rat, ...], ...],                                  query points (columns follow "in")
    "chain": [[algo, opts], ...]                             only for RegressorChain
-   "moe": {...}}                                            only for MOERegressor
+   "moe": {...},                                            only for MOERegressor
+   "samples": [i, ...],                                     first training from a subset of the samples
+   "history": [{"samples": [i, ...] | null,                 further trainings of the SAME model object, each followed
+                "fit_transformers": bool, "q": [...]}],     by all the observations at its own query points
+   "sur": [{"in": [names], "out": [names]}],                SurrogateDiscipline(model, input_names=, output_names=)
+   "sur_named": bool}                                       SurrogateDiscipline("<algo>", data=..., **settings) too
 A *transformer spec* is [class name, {options}] or ["Pipeline", [spec, ...]].
 Numbers are "p/q" strings (dyadic in the generated cases) so that a replay is exact.
 """
@@ -197,6 +202,15 @@ def build_model(case):
     else:
         model.learn()
     return model
+
+
+def relearn(model, phase) -> None:
+    """Train the same model object again: other learning samples, transformers refitted or kept (public `learn`)."""
+    samples = phase.get("samples")
+    model.learn(
+        samples=[int(i) for i in samples] if samples is not None else (),
+        fit_transformers=bool(phase.get("fit_transformers", True)),
+    )
 
 
 # --------------------------------------------------------------------------- layout helpers
